@@ -842,6 +842,10 @@ class Channel(ClosingContextManager):
         """
         while s:
             sent = self.send(s)
+            if sent == 0:
+                # send() only returns 0 once the channel is closed or shut
+                # down for writing: nothing more will ever go out.
+                raise socket.error("Socket is closed")
             s = s[sent:]
         return None
 
@@ -863,6 +867,8 @@ class Channel(ClosingContextManager):
         """
         while s:
             sent = self.send_stderr(s)
+            if sent == 0:
+                raise socket.error("Socket is closed")
             s = s[sent:]
         return None
 
